@@ -214,7 +214,7 @@ func execute(c *Case, withFaults bool) (*result, []reqData, []*vkit.AccountInfo,
 			key := fmt.Sprintf("%x", accs[pos].PubKey)
 			switch f.Site {
 			case "locked-unknown-passphrase", "hash-fail":
-				plan.Mark(f.Site+" "+key+" "+f.Mode)
+				plan.Mark(f.Site + " " + key + " " + f.Mode)
 			case "check":
 				plan.Add("check", accs[pos].Path(), "")
 			case "rules-list":
@@ -250,7 +250,7 @@ func execute(c *Case, withFaults bool) (*result, []reqData, []*vkit.AccountInfo,
 				default:
 					prewrite[k] = []byte{0x9e, 0x13, 0xfa, 0x00, 0x41, 0x07, 0xc3}
 				}
-				plan.Mark("record-undecodable "+key+" "+f.Mode)
+				plan.Mark("record-undecodable " + key + " " + f.Mode)
 			default:
 				plan.Add(f.Site, key, f.Mode)
 			}
